@@ -81,6 +81,23 @@ Theorem C25_delta_base_asfound_refuted :
 Proof. exact refute_prevdata_race. Qed.
 Print Assumptions C25_delta_base_asfound_refuted.
 
+(* bounded liveness for a late joiner (the request side of the poller): a warm key flagged for a
+   connection that is behind and not delta-ready is requested with version 0, and ONE poll cycle with a
+   responsive backend (version at least the entry's) delivers the full payload: the connection then
+   holds the backend's version and the flag is cleared.  (The model does not distinguish timer-driven
+   from notified polls: both build their request from the entry this way.) *)
+Theorem C25_late_joiner_served : forall keep gx s k e ks bv prev dp1,
+  s_ent s k = Some e -> e_nb e = true -> 0 < e_ver e -> e_ver e <= bv ->
+  s_conn s k = Some ks -> ks_ver ks < e_ver e -> ks_ready ks = false ->
+  s_polls s = [] -> s_bc s = [] ->
+  forall s1 p1 s2 p2 s3 p3,
+  step keep gx s (APollReq k) = (s1, p1) -> step keep gx s1 (APollResp 0 bv prev) = (s2, p2) ->
+  step keep gx s2 (ADeliver 0 dp1) = (s3, p3) ->
+  s_polls s1 = [(k, 0)] /\ p3 = [PFull k bv] /\ s_held s3 k = Some bv /\ s_conn s3 k = Some (mkKs bv true) /\
+  (exists e', s_ent s3 k = Some e' /\ e_nb e' = false /\ e_ver e' = bv).
+Proof. exact late_joiner_served. Qed.
+Print Assumptions C25_late_joiner_served.
+
 (* a publisher epoch change ends the subscription of a connection that tracks at least one key
    (the connections found in the keyed hub) with insufficient state, and resets every entry *)
 Theorem C25_epoch_flip : forall keep gx s s' ps k0,
